@@ -274,6 +274,9 @@ class Project:
     def imports(self, modname):
         """Map local name -> ('module', dotted) or ('symbol', module, name) for
         module-level and function-level imports of a module."""
+        cache = self.__dict__.setdefault("_imports_cache", {})
+        if modname in cache:
+            return cache[modname]
         mod = self.mod(modname)
         pkg_parts = mod.name.split(".")
         is_pkg = mod.relpath.endswith("__init__.py")
@@ -294,6 +297,7 @@ class Project:
                         out[a.asname or a.name] = ("module", full)
                     else:
                         out[a.asname or a.name] = ("symbol", base, a.name)
+        cache[modname] = out
         return out
 
     def stats(self):
